@@ -739,6 +739,11 @@ pub fn generate(cfg: &Cfg) -> Vec<String> {
                 let mut t = Track::new(alpha, 32, rng.next() % 1_000_000);
                 t.symbols(l);
                 t.stripe(b, true);
+                // a clone has exactly the capacity it needs: striping the same number of rows into it
+                // leaves no slack behind the last row for an overrun to hide in
+                t.push("C".into());
+                t.symbols(l);
+                t.stripe(b, false);
                 let l2 = *rng.pick(&[993usize, 1000, 1023, 1024, 1025, 31, 32, 33, 0, 2047, 2049]);
                 t.symbols(l2);
                 t.stripe(b, false);
@@ -747,6 +752,7 @@ pub fn generate(cfg: &Cfg) -> Vec<String> {
                 let m = rng.range(1, 9);
                 t.pssm(m);
                 t.configure();
+                t.push("C".into());
                 let sb = *rng.pick(&["avx2", "sse2", "disp-avx2"]);
                 t.score_full(sb, "f32");
                 t.maxop(sb, "f32", "argmax");
@@ -793,6 +799,8 @@ pub fn generate(cfg: &Cfg) -> Vec<String> {
                     } else {
                         t.wrap(m - 1 + rng.below(3));
                     }
+                    // exact capacities (see above): the last wrap row is the last row of the allocation
+                    t.push("C".into());
                     let r = t.seq_rows();
                     for b in backends_for(c, "score") {
                         for ty in ["f32", "u8"] {
@@ -878,6 +886,7 @@ pub fn generate(cfg: &Cfg) -> Vec<String> {
                         t.stripe(arm, true);
                         t.pssm(rng.range(1, 12));
                         t.configure();
+                        t.push("C".into());
                         t.scan(arm, "collect", block);
                         t.scan(arm, "max", block);
                         cases.push(t.line);
